@@ -255,6 +255,34 @@ def run(ctx):
         hist = stress(ctx, seed, dur, "stress%d" % i)
         if hist and os.path.exists(hist):
             real_histories(ctx, hist, "linearize-real%d" % i)
+    fresh_series(ctx)
+
+
+def fresh_series(ctx):
+    """"No metric increment is lost" also covers the FIRST concurrent use of a series (get-or-create under contention):
+    the long-running stress creates each series once, so this is exercised with the metrics tool `c18race`, which
+    releases goroutines from a barrier over thousands of fresh series / monitors and compares totals with call counts."""
+    import json, subprocess
+    env = core.go_env()
+    env["GORACE"] = "halt_on_error=0 exitcode=66"
+    args = ["-seed", str(ctx.seed), "-g", "16", "-n", "8000" if ctx.tier == "quick" else "60000"]
+    p = subprocess.run([RACE_BIN, "tool", "c18race"] + args, stdout=subprocess.PIPE, stderr=subprocess.PIPE, env=env, timeout=1800)
+    out, err = p.stdout.decode(errors="replace"), p.stderr.decode(errors="replace")
+    rep = None
+    for l in reversed(out.strip().split("\n")):
+        try:
+            rep = json.loads(l)
+            break
+        except Exception:
+            continue
+    races = err.count("WARNING: DATA RACE")
+    ok = p.returncode == 0 and races == 0
+    ctx.cov["evaluations"] += 1
+    ctx.oblige("support:fresh-series:totals=calls,race-detector-silent", "support", ok, "rc=%s races=%d %s" % (p.returncode, races, json.dumps((rep or {}).get("failures", []))[:400]))
+    if not ok:
+        cls = "data-race" if races else "metric-increment-lost"
+        ctx.hit(cls, "%s on first concurrent use of a series: c18race %s rc=%s %s" % (cls, " ".join(args), p.returncode, json.dumps((rep or {}).get("failures", []))[:300]),
+                dict(kind="impl-counterexample", domain="c18race", tool="c18race", args=args, exit_status=p.returncode, reports=races, **{"class": cls}))
 
 
 def replay(ctx, rep):
